@@ -868,7 +868,20 @@ def check_sig(fs, real_sig):
         if k >= len(t): return None
         close = br[k]
         names = []
-        for (a, b) in split_top_commas(t, br, k + 1, close):
+        # top-level commas only: commas inside `<..>` of a type do not separate parameters
+        segs = []; start_ = k + 1; i_ = k + 1; ang = 0
+        while i_ < close:
+            x = t[i_]
+            if x.kind == "open": i_ = br[i_] + 1; continue
+            if x.kind == "punct":
+                if x.text == "<": ang += 1
+                elif x.text == ">" and not (i_ > 0 and t[i_ - 1].kind == "punct" and t[i_ - 1].text == "-" and t[i_ - 1].end == x.start): ang = max(0, ang - 1)
+                elif x.text == ">>": ang = max(0, ang - 2)
+                elif x.text == "," and ang == 0:
+                    segs.append((start_, i_)); start_ = i_ + 1
+            i_ += 1
+        if start_ < close: segs.append((start_, close))
+        for (a, b) in segs:
             seg = t[a:b]
             # skip attributes
             txt = [x.text for x in seg]
